@@ -99,7 +99,7 @@ def build_replay(build_dir, metas, profile):
     return os.path.join(tdir, profile if profile == "release" else "debug", "mq2_replay")
 
 
-def run_replay(binary, replay_json, timeout=120):
+def run_replay(binary, replay_json, timeout=30):
     try:
         p = subprocess.run([binary, replay_json], stdout=subprocess.PIPE, stderr=subprocess.STDOUT,
                            text=True, timeout=timeout)
